@@ -9,7 +9,7 @@ if os.path.exists(lp):
         f = l.rstrip("\n").split("\t")
         if len(f) >= 4:
             last[f[0]] = (f[2], f[3])
-for d in sorted(glob.glob(os.path.join(os.path.dirname(os.path.abspath(__file__)), "seeded", "*"))):
+for d in sorted([d for d in glob.glob(os.path.join(os.path.dirname(os.path.abspath(__file__)), "seeded", "*")) if not os.path.basename(d).startswith("_")]):
     mp = os.path.join(d, "meta.json")
     if not os.path.exists(mp):
         continue
